@@ -106,6 +106,27 @@ func (j *judge) resolveMemCompletions(r *recorder, rspAt map[string]int64) {
 			}
 			j.rec.Count("memory_instructions", 1)
 			j.rec.Count("memory_transactions", int64(len(i.Reqs)))
+			if i.Class == "smem" {
+				j.rec.Count("scalar_loads", 1)
+				if len(i.Reqs) > 1 && !missing {
+					first := last
+					for _, id := range i.Reqs {
+						first = min(first, rspAt[id])
+					}
+					j.rec.Count("scalar_loads_split_into_several_requests", 1)
+					if last-first >= 100 {
+						j.rec.Count("scalar_loads_split_pieces_100_cycles_apart", 1)
+					}
+					i.Split = last - first
+					if os.Getenv("C14_SPLITDBG") != "" {
+						fmt.Printf("split %s wave %d issue %d pieces", j.sc.Name, w.Index, i.Start)
+						for _, id := range i.Reqs {
+							fmt.Printf(" %d", rspAt[id])
+						}
+						fmt.Println()
+					}
+				}
+			}
 			if e := i.end(); e >= 0 && (i.TrueEnd < 0 || e < i.TrueEnd) {
 				j.viol("C14|"+j.mode+"|memory-instruction|reported-complete-before-last-response",
 					fmt.Sprintf("group %v wave %d: %s reported complete at cycle %d, but the response of one of its %d transactions was retrieved at cycle %d (-1 = never)",
@@ -154,6 +175,13 @@ func (j *judge) checkWaitcnt(groups []*groupRec) (stalled bool) {
 				if mustStall {
 					j.rec.Count("waitcnt_had_to_stall", 1)
 					stalled = true
+				}
+				for _, m := range w.Insts[:i.Seq] {
+					// a split scalar load whose first piece has returned but whose last has not
+					if m.Class == "smem" && len(m.Reqs) > 1 && m.Split > 0 && completion(m) > i.Start && lgkm == 0 {
+						j.rec.Count("waitcnt_lgkmcnt0_issued_with_split_scalar_load_outstanding", 1)
+						break
+					}
 				}
 				te := i.end()
 				if te < 0 {
